@@ -180,7 +180,10 @@ fn claims_for(r: &mut Rng, same: bool, thread: u32, i: u64) -> Value {
         "nationalities": ["DE", "FR", ["x", "y"]], "items": [{"a": 1}, {"b": [1, 2]}], "flag": true, "none": null,
         // names that read like paths of other claims: every disclosure still needs its own salt
         "address.street": "x", "address.geo.lat": 1, "nationalities[1]": "FR", "items[0].a": 1, "items[1]": {"b": [1, 2]},
-        "nationalities[2][0]": "x", "$.name": "Erika Mustermann", "": {"": ""}, "twins": ["same", "same", {"a": 1}, {"a": 1}], "empty": {}, "empties": [{}, [], {}]
+        "nationalities[2][0]": "x", "$.name": "Erika Mustermann", "": {"": ""}, "twins": ["same", "same", {"a": 1}, {"a": 1}], "empty": {}, "empties": [{}, [], {}],
+        // several empty containers, nulls, equal scalars as MEMBERS of one object; non-ASCII array elements
+        "roles": [], "extras": {}, "more": {"a": [], "b": [], "c": {}, "d": {}, "e": null, "f": null, "g": "", "h": "", "i": 0, "j": 0, "k": false, "l": false},
+        "cities": ["K\u{f6}ln", "\u{6771}\u{4eac}", "\u{1f600}", ["M\u{fc}nchen"], {"\u{e9}": "\u{e9}"}]
     });
     if !same {
         v["thread"] = json!(thread);
